@@ -199,6 +199,10 @@ def gen_ctx(rng: random.Random, m: onnx.ModelProto) -> dict:
         "node": {"used": list(dict.fromkeys([node] + node_used)), "counters": node_ctr},
         "_extra_var": var_used,
         "_extra_node": node_used,
+        "_adapt": {
+            "target": rng.choice([next((o.version for o in m.opset_import if o.domain in ("", "ai.onnx")), 17), 14, 17, 19, 21]),
+            "extraVarNames": rng.sample(["q0", "q1", "Add_9_C", f"{node}__zz", "Inline_99__x"], rng.randrange(0, 3)),
+        },
     }
 
 
@@ -306,6 +310,51 @@ def real_stages(m: onnx.ModelProto, call: dict, ctx: dict, lits: L.Lits) -> dict
         }
     except Exception as e:  # noqa: BLE001
         out["unobservable"] = f"reading the result of _Inline.to_onnx: {type(e).__name__}: {e}"
+        return out
+    # adapt_inline: conversion decision, re-rename in a fresh Scope, node.model restored
+    ad = ctx.get("_adapt")
+    if ad is not None:
+        try:
+            import spox._adapt as A
+
+            var_names = dict(zip(node.inputs.inputs, ctx["argNames"]))
+            var_names.update(zip(node.outputs.outputs, ctx["resNames"]))
+            for extra in ad["extraVarNames"]:
+                var_names[argument(spox_type({"t": [TP.FLOAT, [2]]}))] = extra
+            base = node.model
+            rec: dict[str, Any] = {"called": False, "raised": None, "result": None}
+            real_conv = onnx.version_converter.convert_version
+
+            def spy(model, version):
+                rec["called"] = True
+                try:
+                    rec["result"] = real_conv(model, version)
+                except Exception as e:  # noqa: BLE001
+                    rec["raised"] = type(e).__name__
+                    raise
+                return rec["result"]
+
+            adapt_fn = A.adapt_inline
+        except Exception as e:  # noqa: BLE001
+            out["unobservable"] = f"adapt_inline: {type(e).__name__}: {e}"
+            return out
+        onnx.version_converter.convert_version = spy
+        try:
+            try:
+                got = adapt_fn(node, list(nodes), {"": ad["target"]}, var_names, ctx["nodeName"])
+                out["adapt"] = {"nodes": [L.abstract_node(n, lits) for n in got]}
+            except Exception as e:  # noqa: BLE001
+                out["adapt"] = type(e).__name__
+        finally:
+            onnx.version_converter.convert_version = real_conv
+        out["adapt_called"] = rec["called"]
+        out["adapt_conv_raised"] = rec["raised"]
+        if rec["result"] is not None:
+            out["adapt_converted"] = L.abstract_graph(rec["result"].graph, lits)
+        try:
+            out["adapt_model_restored"] = node.model is base
+        except Exception:  # noqa: BLE001
+            pass
     return out
 
 
@@ -337,6 +386,20 @@ def compare_stages(real: dict, model: dict, all_distinct: bool = True) -> Option
         return None if re_ == me else f"emit: real {re_ if isinstance(re_, str) else 'ok'} model {me if isinstance(me, str) else 'ok'}"
     if re_["nodes"] != me["nodes"]:
         return f"emitted nodes: real {json.dumps(re_['nodes'])[:600]} model {json.dumps(me['nodes'])[:600]}"
+    ra, ma = real.get("adapt"), model.get("adapt")
+    if ra is not None and not real.get("adapt_conv_raised"):
+        if isinstance(ra, str) or isinstance(ma, str):
+            if ra != ma:
+                return f"adapt: real {ra if isinstance(ra, str) else 'ok'} model {ma if isinstance(ma, str) else 'ok'}"
+        elif ma is None:
+            return "adapt: model gave no answer"
+        else:
+            if bool(real.get("adapt_called")) != bool(ma["converts"]):
+                return f"adapt decision: real converter called={real.get('adapt_called')} model converts={ma['converts']}"
+            if ra["nodes"] != ma["nodes"]:
+                return f"adapt nodes: real {json.dumps(ra['nodes'])[:500]} model {json.dumps(ma['nodes'])[:500]}"
+        if real.get("adapt_model_restored") is False:
+            return "adapt_inline left node.model swapped"
     for sp in ("var", "node"):
         if sorted(set(me[sp]["used"])) != re_[sp]["used"]:
             return f"{sp} names after: real {re_[sp]['used']} model {sorted(set(me[sp]['used']))}"
@@ -824,8 +887,16 @@ def run(ck: core.Check):
                         real = real_stages(mv, call, ctx, lits)
                     except Exception as e:  # noqa: BLE001
                         real = {"prepare": {}, "unobservable": f"stages: {type(e).__name__}: {e}"}
-                    reqs.append({"model": L.abstract_model(mv, lits), "call": call,
-                                 "ctx": {k: v for k, v in ctx.items() if not k.startswith("_")}})
+                    rq = {"model": L.abstract_model(mv, lits), "call": call,
+                          "ctx": {k: v for k, v in ctx.items() if not k.startswith("_")}}
+                    if "adapt" in real:
+                        rq["adapt"] = {
+                            "varNames": list(dict.fromkeys(ctx["argNames"] + ctx["resNames"] + ctx["_adapt"]["extraVarNames"])),
+                            "imports": [o.version for o in mv.opset_import if o.domain in ("", "ai.onnx")],
+                            "target": ctx["_adapt"]["target"],
+                            "converted": real.get("adapt_converted"),
+                        }
+                    reqs.append(rq)
                     reals.append(real)
                     descr.append((mi, call, ctx))
     try:
@@ -836,6 +907,8 @@ def run(ck: core.Check):
     mism = 0
     outcomes: dict[str, int] = {}
     unobs: dict[str, int] = {}
+    adapt_hist: dict[str, int] = {}
+    pf_hist: dict[str, int] = {}
     for (mi, call, ctx), real, ans in zip(descr, reals, answers):
         if "unobservable" in real:
             facet = real["unobservable"].split(":")[0]
@@ -850,6 +923,14 @@ def run(ck: core.Check):
             real["call"] if isinstance(real.get("call"), str) else (
                 real["emit"] if isinstance(real.get("emit"), str) else "emitted"))
         outcomes[oc] = outcomes.get(oc, 0) + 1
+        if "adapt" in real:
+            ak = "converter-raised" if real.get("adapt_conv_raised") else ("converted" if real.get("adapt_called") else "kept")
+            adapt_hist[ak] = adapt_hist.get(ak, 0) + 1
+        if isinstance(ans, dict) and ans.get("prefixFree") and real.get("emit") == "ScopeError":
+            d_pf = "prefix-free scope but the real to_onnx raised ScopeError"
+            ck.broken("correspondence", "C08 rename_total", d_pf)
+        if isinstance(ans, dict) and "prefixFree" in ans:
+            pf_hist[str(ans["prefixFree"])] = pf_hist.get(str(ans["prefixFree"]), 0) + 1
         if real.get("copy_is_m"):
             d = d or "inline() works on the caller's model object itself"
         if d:
@@ -861,6 +942,8 @@ def run(ck: core.Check):
     ck.cov["correspondence_mismatches"] = mism
     ck.cov["correspondence_outcomes"] = outcomes
     ck.cov["correspondence_unobservable"] = unobs
+    ck.cov["adapt_correspondence"] = adapt_hist
+    ck.cov["scope_prefix_free"] = pf_hist
 
     # ---- evaluator correspondence: Inline.evalModel (integer interpreter) vs onnxruntime
     ev_reqs, ev_expect = [], []
